@@ -77,12 +77,42 @@ def run(eng, ctx, with_socket=True):
             consumes.append(e)
     ctx.instance("consume sites", len(consumes), 3)
     rets = [e for e in se.effects if e.kind == "return"]
-    if len(rets) != 1 or rets[0].term[0] != "tuple" or len(rets[0].term[1]) != 2 or not all(x[0] == "loopout" for x in rets[0].term[1]):
-        ctx.bad("C12.D2", dq, "return", expected="return (decoded, partial) of the loop-carried variables", found=", ".join(show(r.term)[:60] for r in rets), **loc)
+    post = [r for r in rets if not r.loops]
+    inl = [r for r in rets if r.loops]
+
+    class Exit:
+        """One way the chunk loop is left with a result: a break (result = the loop-carried pair returned after the loop) or a return inside the loop."""
+
+        def __init__(self, kind, dnf, seq, out, part, env=None):
+            self.kind, self.dnf, self.seq, self.out, self.part, self.env = kind, dnf, seq, out, part, env or {}
+
+    def pair(r):
+        return r.term[1] if r.term[0] == "tuple" and len(r.term[1]) == 2 else None
+
+    okshape = all(pair(r) is not None for r in rets) and len(post) <= 1 and bool(rets)
+    outv = partv = None
+    if okshape and post:
+        a, b = pair(post[0])
+        okshape = a[0] == "loopout" and b[0] == "loopout"
+        if okshape:
+            outv, partv = a[2], b[2]
+    if okshape and not post:
+        names = {pair(r)[0][2] for r in inl if pair(r)[0][0] == "loop" and pair(r)[0][1] == lid}
+        okshape = len(names) == 1 and all(pair(r)[0][0] == "loop" for r in inl)
+        if okshape:
+            outv = names.pop()
+    if not okshape:
+        ctx.bad("C12.D2", dq, "return", expected="return (decoded, partial): the loop-carried variables after the loop, or (decoded so far, partial) at the exits inside it", found=", ".join(show(r.term)[:60] for r in rets), **loc)
         return
-    outv, partv = rets[0].term[1][0][2], rets[0].term[1][1][2]
-    ctx.check(info["pre"].get(outv) == ("const", b"") and info["pre"].get(partv) == ("const", b""), "C12.D2", dq, "initial values", expected="decoded = b'' and partial = b''",
-              found=f"{show(info['pre'].get(outv, ('?',)))}, {show(info['pre'].get(partv, ('?',)))}", **loc)
+    exits = []
+    for k_, st_ in info.get("ends", []):
+        if k_ == "break":
+            exits.append(Exit("break", st_.dnf, st_.seq, st_.env.get(outv, ("loop", lid, outv)), st_.env.get(partv, ("loop", lid, partv)) if partv else ("const", b""), st_.env))
+    for r in inl:
+        exits.append(Exit("return", r.dnf, r.seq, pair(r)[0], pair(r)[1]))
+    okinit = info["pre"].get(outv) == ("const", b"") and (partv is None or info["pre"].get(partv) == ("const", b""))
+    ctx.check(okinit, "C12.D2", dq, "initial values", expected="decoded = b'' and partial = b''",
+              found=f"{show(info['pre'].get(outv, ('?',)))}, {show(info['pre'].get(partv, ('?',))) if partv else '-'}", **loc)
 
     # ---------------- D1
     ctx.rule("C12.D1", "every consume from the per-segment stream binds its result and is tested for completeness (CRLF suffix / len == n) on every path that commits")
@@ -97,9 +127,13 @@ def run(eng, ctx, with_socket=True):
         if discarded:
             ctx.bad("C12.D1", dq, norm(e.node) + "#expr-stmt", expected="result bound and tested for completeness before the iteration commits", found="expression statement: the consumed bytes are discarded unchecked",
                     detail="a receive boundary inside these bytes loses them and desynchronises the next segment", **eng.loc(f, e.node))
-    ends = [(k, st) for k, st in info.get("ends", [])]
+    ends = [(k, st) for k, st in info.get("ends", []) if k != "break"]
     if not info.get("body_dead"):
         ends.append(("fall-through", info["body_end_state"]))
+    ends += [(x.kind, x) for x in exits]
+
+    def out_at(st):
+        return st.out if isinstance(st, Exit) else st.env.get(outv, ("loop", lid, outv))
 
     def on_path(e, conj):
         return all(lit in conj for lit in e.guards) and e.loops and e.loops[-1] == lid
@@ -109,7 +143,7 @@ def run(eng, ctx, with_socket=True):
         for conj in st.dnf:
             path = [e for e in consumes if e.seq < st.seq and on_path(e, conj) and e.term[1] in kinds]
             committed = False
-            for g, leaf in leaves(st.env.get(outv, ("loop", lid, outv))):
+            for g, leaf in leaves(out_at(st)):
                 if all((c, not p) not in conj for c, p in g) and leaf != ("loop", lid, outv):
                     committed = True
             proceeds = kind in ("fall-through", "continue")
@@ -130,13 +164,13 @@ def run(eng, ctx, with_socket=True):
     cat = CatContext()
     nexit = 0
     for kind, st in ends:
-        if kind != "break":
+        if not isinstance(st, Exit):
             continue
         for conj in st.dnf:
             nexit += 1
             path = [e for e in consumes if e.seq < st.seq and on_path(e, conj) and e.term[1] in kinds]
             incomplete = [e for e in path if any(_lit_complete(c, p, kinds[e.term[1]][0], e.term, kinds[e.term[1]][1]) == -1 for c, p in conj)]
-            pv = st.env.get(partv, ("loop", lid, partv))
+            pv = st.part
             lbl = guard_text(conj)[-120:]
             if incomplete:
                 segs = cat.to_cat(pv)
@@ -153,8 +187,8 @@ def run(eng, ctx, with_socket=True):
                 continue
             ctx.bad("C12.D2", dq, f"exit under {lbl}", expected="an incompleteness exit carrying the consumed bytes, or one of the two named exits", found="loop left with consumed bytes neither decoded nor carried", **loc)
     ctx.instance("loop exits classified", nexit, 3)
-    # the loop can only be left by break (while True) - a conditional loop test would be another exit
-    ctx.check(info.get("test") == ("const", True) or (is_const(info.get("test", ("?",))) and info["test"][1]), "C12.D2", dq, "loop test", expected="while True (exits are the classified breaks)", found=show(info.get("test", ("?",))), **eng.loc(f, info["node"]))
+    # the loop can only be left by break / return (while True) - a conditional loop test would be another exit
+    ctx.check(info.get("test") == ("const", True) or (is_const(info.get("test", ("?",))) and info["test"][1]), "C12.D2", dq, "loop test", expected="while True (exits are the classified breaks / returns)", found=show(info.get("test", ("?",))), **eng.loc(f, info["node"]))
 
     # ---------------- D3 chunk body
     ctx.rule("C12.D3", "chunk body: `read(n)` with n the parsed size is issued for every non-zero size (guarded by n != 0 or unguarded), never under n == 0; "
